@@ -658,7 +658,7 @@ pub const SWEEP_ALPHABET: &[u8] = b"A*:?;, \n1.E+#H'\"()@!\xff\x00";
 
 pub fn run(cfg: &Cfg, rep: &mut Report) {
     // (1) grammar-generated well-formed messages
-    let n = cfg.n(300, 1_500_000, 60_000_000);
+    let n = cfg.n(300, 4_500_000, 90_000_000);
     run_cases(cfg, "generated", n, rep, |rng, ctx| {
         let (m, shape) = gen_message(rng);
         // oracle self-check: the reference must accept what the generator built, with the same shape
@@ -690,7 +690,7 @@ pub fn run(cfg: &Cfg, rep: &mut Report) {
         ctx.sample(|| jobj(&[("well_formed_message", jbytes(&m))]));
     });
     // (2) targeted corruptions
-    let n = cfg.n(300, 1_500_000, 60_000_000);
+    let n = cfg.n(300, 4_500_000, 90_000_000);
     run_cases(cfg, "corrupted", n, rep, |rng, ctx| {
         let (m, _) = gen_message(rng);
         let (c, op) = corrupt(rng, &m);
